@@ -1,3 +1,108 @@
-import GV.Model.Engine
+/-
+  Props/C06.lean — Packet ids are non-zero, unique among in-flight operations, and never leak.
+  About Model/Engine.lean: `acquire_free_packet_id`, `acquire_packet_id_for_operation`,
+  `unbind_operation_packet_id`, the release in `complete_operation_as_success/failure` (protocol.rs).
+-/
+import GV.Proofs.EngineBasics
 namespace GV.Props.C06
+open GV
+
+def inRange (n : Nat) : Prop := 1 ≤ n ∧ n ≤ 65535
+
+theorem next_in_range (next : Nat) (h : inRange next) : inRange (if next = 65535 then 1 else next + 1) := by
+  unfold inRange at *; split <;> omega
+
+/-- **The search loop is sound for every cursor position and any number of wrap-arounds**: an id it returns
+    is non-zero, at most 65535 and not reserved; the cursor it leaves behind is again a legal id. -/
+theorem acquireLoop_sound (allocated : List (Nat × Nat)) (start : Nat) :
+    ∀ (fuel check next : Nat), inRange check → inRange next →
+      inRange (acquireLoop allocated start fuel check next).2 ∧
+      ∀ pid, (acquireLoop allocated start fuel check next).1 = some pid → inRange pid ∧ allocated.lookup pid = none := by
+  intro fuel
+  induction fuel with
+  | zero => intro check next _ hn; simp [acquireLoop]; exact hn
+  | succ f ih =>
+    intro check next hc hn
+    have hn' := next_in_range next hn
+    simp only [acquireLoop]
+    generalize (if next = 65535 then 1 else next + 1) = nx at hn'
+    by_cases hfree : (allocated.lookup check).isNone = true
+    · simp only [hfree, ↓reduceIte]
+      refine ⟨hn', ?_⟩
+      intro pid hp
+      simp only [Option.some.injEq] at hp; subst hp
+      exact ⟨hc, by simpa using hfree⟩
+    · simp only [hfree, Bool.false_eq_true, ↓reduceIte]
+      by_cases hst : nx = start
+      · simp only [hst, ↓reduceIte]
+        exact ⟨by rw [← hst]; exact hn', by intro pid hp; simp at hp⟩
+      · simp only [hst, ↓reduceIte]
+        exact ih _ _ hn' hn'
+
+/-- **Allocation.**  With the cursor at a legal id, a successful allocation returns a non-zero id that no
+    in-flight operation holds, reserves it for the requesting operation and for nobody else, and leaves every
+    other reservation as it was. -/
+theorem acquireFreeId_spec (e : Engine) (opId : Nat) (h : inRange e.nextPacketId) :
+    inRange (e.acquireFreeId opId).1.nextPacketId ∧
+    ∀ pid, (e.acquireFreeId opId).2 = some pid →
+      inRange pid ∧ e.allocated.lookup pid = none ∧ (e.acquireFreeId opId).1.allocated.lookup pid = some opId ∧
+      ∀ other, other ≠ pid → (e.acquireFreeId opId).1.allocated.lookup other = e.allocated.lookup other := by
+  have hs := acquireLoop_sound e.allocated e.nextPacketId 65536 e.nextPacketId e.nextPacketId h h
+  simp only [Engine.acquireFreeId]
+  cases hf : (acquireLoop e.allocated e.nextPacketId 65536 e.nextPacketId e.nextPacketId).1 with
+  | none =>
+    have : acquireLoop e.allocated e.nextPacketId 65536 e.nextPacketId e.nextPacketId =
+        (none, (acquireLoop e.allocated e.nextPacketId 65536 e.nextPacketId e.nextPacketId).2) := by rw [← hf]
+    rw [this]
+    exact ⟨hs.1, by intro pid hp; simp at hp⟩
+  | some p =>
+    have : acquireLoop e.allocated e.nextPacketId 65536 e.nextPacketId e.nextPacketId =
+        (some p, (acquireLoop e.allocated e.nextPacketId 65536 e.nextPacketId e.nextPacketId).2) := by rw [← hf]
+    rw [this]
+    refine ⟨hs.1, ?_⟩
+    intro pid hp
+    simp only [Option.some.injEq] at hp; subst hp
+    have := hs.2 p hf
+    exact ⟨this.1, this.2, lookup_mapInsert_self _ _ _, fun other ho => lookup_mapInsert_ne _ _ _ _ ho⟩
+
+/-- **An operation that already has an id keeps it** (a retransmission after a resumed reconnect reuses the
+    identifier of the original); operations that need none get none. -/
+theorem bound_operation_keeps_its_id (e : Engine) (id : Nat) (o : Op) (ho : e.op? id = some o) (hb : o.packetId.isSome = true) :
+    e.acquireIdFor id = (e, .ok) := by
+  simp [Engine.acquireIdFor, ho, hb]
+
+theorem qos0_gets_no_id (e : Engine) (id : Nat) (o : Op) (ho : e.op? id = some o) (hb : o.packetId = none)
+    (hn : needsPacketId o.packet = false) : e.acquireIdFor id = (e, .ok) := by
+  simp [Engine.acquireIdFor, ho, hb, hn]
+
+/-- marking a publish as duplicate for retransmission does not touch its packet id -/
+theorem dup_flag_keeps_id (p : Publish) (v : Bool) : (match setDup (.publish p) v with | .publish q => q.packetId | _ => 0) = p.packetId := rfl
+
+/-- **Release.**  Completing an operation (success or failure) frees its id: afterwards the id is not
+    reserved and the operation is no longer tracked. -/
+theorem release_frees_id (e : Engine) (o : Op) (pid : Nat) (h : o.packetId = some pid) :
+    (e.releaseIds o).allocated.lookup pid = none ∧ (e.releaseIds o).pendingPub.lookup pid = none ∧
+    (e.releaseIds o).pendingNonPub.lookup pid = none := by
+  simp [Engine.releaseIds, h, lookup_mapErase_self]
+
+theorem release_keeps_others (e : Engine) (o : Op) (pid other : Nat) (h : o.packetId = some pid) (hne : other ≠ pid) :
+    (e.releaseIds o).allocated.lookup other = e.allocated.lookup other := by
+  simp [Engine.releaseIds, h, lookup_mapErase_ne _ _ _ hne]
+
+/-- **Session lost: the id is given back** and the operation restarts without one. -/
+theorem unbind_frees_id (e : Engine) (id : Nat) (o : Op) (pid : Nat) (ho : e.op? id = some o) (hid : o.id = id) (h : o.packetId = some pid) :
+    (e.unbind id).allocated.lookup pid = none ∧ ((e.unbind id).op? id).bind (·.packetId) = none := by
+  subst hid
+  unfold Engine.op? at ho
+  simp only [Engine.unbind, Engine.op?, ho, h, Engine.setOp]
+  exact ⟨lookup_mapErase_self _ _, by rw [lookup_mapInsert_self]; rfl⟩
+
+/-- after a reset nothing stays reserved and the cursor restarts at 1 -/
+theorem reset_frees_everything (e : Engine) : e.reset.allocated = [] ∧ e.reset.nextPacketId = 1 ∧ e.reset.ops = [] := by
+  simp [Engine.reset]
+
+/-- non-vacuity: ids 1 and 2 taken, cursor at 1: the search yields 3; cursor at 65535 with 65535 taken wraps to 1 -/
+example : acquireLoop [(1, 10), (2, 11)] 1 65536 1 1 = (some 3, 4) := by decide
+example : acquireLoop [(65535, 10)] 65535 65536 65535 65535 = (some 1, 2) := by decide
+
 end GV.Props.C06
